@@ -145,7 +145,7 @@ def check_rules(pid, tier, seed):
     # 1. the rules as a design: exhaustive exploration with the module's own invariants
     model_check(chk, "MCChess", cfg="MCChess" if quick else "MCChess3", workers=8)
     # 2. impl -> spec: random/corpus play validated step by step
-    games, plies = (48, 70) if quick else (1600, 120)
+    games, plies = (48, 70) if quick else (400, 120)
     emit = {"C01": "move", "C02": "move,perform", "C10": "move,attacks"}[pid]
     info = play_traces(chk, wvbin, wd, emit, games, plies, extra=["--perform-every", "40" if quick else "60"])
     res = validate_stream(chk, os.path.join(wd, "play.move.ndjson"), pid, NPROC if quick else NPROC * 4, boundary="Reset")
@@ -180,13 +180,16 @@ def family_plan(pid, quick, seed):
             plan = [("KXK", s, 8) for s in pick("KXK", 3)] + [("EP", s, 4) for s in pick("EP", 4)] + [("CASTLE", s, 3) for s in pick("CASTLE", 3)] \
                 + [("PROMO", s, 5) for s in pick("PROMO", 2)] + [("PIN", s, 80) for s in pick("PIN", 2)]
     else:
+        # thorough: complete enumeration of the cheap families, strided enumeration of the large ones (~25-35 min on 16 cores)
         if pid == "C05":
-            plan = [("KXK", s, 1) for s in range(64)] + [("KXXK", s, 60) for s in range(128)] + [("PROMO", s, 2) for s in range(16)]
+            plan = [("KXK", s, 1) for s in range(64)] + [("KXXK", s, 400) for s in range(128)] + [("PROMO", s, 2) for s in range(16)]
         elif pid == "C10":
             plan = [("PIN", s, 10) for s in range(20)] + [("KXK", s, 2) for s in range(64)] + [("EP", s, 2) for s in range(28)] + [("CASTLE", s, 2) for s in range(10)]
+        elif pid == "C02":
+            plan = [("KXK", s, 4) for s in range(64)] + [("EP", s, 1) for s in range(28)] + [("CASTLE", s, 1) for s in range(10)] + [("PROMO", s, 1) for s in range(16)]
         else:
-            plan = [("KXK", s, 1) for s in range(64)] + [("EP", s, 1) for s in range(28)] + [("CASTLE", s, 1) for s in range(10)] \
-                + [("PROMO", s, 1) for s in range(16)] + [("PIN", s, 12) for s in range(20)] + [("KXXK", s, 150) for s in range(128)]
+            plan = [("KXK", s, 2) for s in range(64)] + [("EP", s, 1) for s in range(28)] + [("CASTLE", s, 1) for s in range(10)] \
+                + [("PROMO", s, 1) for s in range(16)] + [("PIN", s, 12) for s in range(20)] + [("KXXK", s, 600) for s in range(128)]
     return [(f, s, st, (seed + 3 * s) % st) for f, s, st in plan]
 
 
